@@ -24,7 +24,8 @@ type VSeg struct {
 func (s VSeg) Dur() uint64 { return s.End - s.Start }
 
 type VRep struct {
-	LoopMismatch bool // the track's own total duration differs from the reference (video) loop: its looped timeline is not defined by the statements
+	LoopMismatch bool   // the track's own total duration differs from the reference (video) loop: no gap-free timeline exists for it
+	LoopOverride uint64 // for such a track: the asset's loop duration in this track's timescale (0 if that is not a whole number of ticks)
 	ID           string
 	Kind         string // video audio text image
 	Codecs       string
@@ -48,6 +49,16 @@ func (r *VRep) LoopTicks() uint64 {
 		return 0
 	}
 	return r.Segs[len(r.Segs)-1].End - r.Segs[0].Start
+}
+
+// Loop is the duration after which the track repeats on the live timeline: the asset's loop
+// duration (C01: "floor(n/N)*loopDuration + VoD start"). It equals LoopTicks except for a track
+// whose own duration differs from the asset's.
+func (r *VRep) Loop() uint64 {
+	if r.LoopOverride != 0 {
+		return r.LoopOverride
+	}
+	return r.LoopTicks()
 }
 
 type VAsset struct {
@@ -157,6 +168,9 @@ func LoadAsset(root, assetPath string) (*VAsset, error) {
 		// compare total durations exactly: r.loop/r.TS == ref.loop/ref.TS
 		if r.LoopTicks()*a.Ref.TS != a.Ref.LoopTicks()*r.TS {
 			r.LoopMismatch = true
+			if x := a.Ref.LoopTicks() * r.TS; x%a.Ref.TS == 0 && x/a.Ref.TS >= r.LoopTicks() {
+				r.LoopOverride = x / a.Ref.TS // a shorter track leaves a hole at the wrap; a longer one would overlap and stays unmodelled
+			}
 		}
 	}
 	return a, nil
@@ -281,12 +295,12 @@ func (r *VRep) SegIdx(n int64) (int64, int) {
 // LiveStart / LiveEnd: media time of segment index n on the looped timeline.
 func (r *VRep) LiveStart(n int64) uint64 {
 	w, i := r.SegIdx(n)
-	return uint64(w)*r.LoopTicks() + r.Segs[i].Start
+	return uint64(w)*r.Loop() + r.Segs[i].Start
 }
 
 func (r *VRep) LiveEnd(n int64) uint64 {
 	w, i := r.SegIdx(n)
-	return uint64(w)*r.LoopTicks() + r.Segs[i].End
+	return uint64(w)*r.Loop() + r.Segs[i].End
 }
 
 // LastEnded returns the largest segment index n whose end (minus atoMS) has been reached at
@@ -297,7 +311,7 @@ func (r *VRep) LastEnded(relMS, atoMS int64) int64 {
 		return -1
 	}
 	N := int64(len(r.Segs))
-	loop := r.LoopTicks()
+	loop := r.Loop()
 	// ticks budget: end(n) <= x*ts/1000  (floor keeps exactness: end is an integer number of ticks)
 	lim := FloorMulDiv(uint64(x), r.TS, 1000)
 	w := int64(lim / loop)
